@@ -178,6 +178,8 @@ def _tau_pool(self):
     self.beta[3] = np.radians(89.0)
     self.beta[4] = float(self.obj.tau_cdf_grid["beta_rad"][0])
     self.beta[5] = float(self.obj.tau_cdf_grid["beta_rad"][-1])
+    # several events BELOW the tabulated minimum angle (evaluated on the minimum-angle edge), each with its own energy
+    self.beta[8:14] = np.radians(self.rng.uniform(0.001, 0.09, 6))
     self.le = self.rng.uniform(6.0, 12.0, n)
     self.le[6] = 6.0
     self.le[7] = 12.0
@@ -321,6 +323,11 @@ class AltDec(Stage):
         return self.digest_outputs([alt, ln, alt2, ln2], len(idx)), _intact(keep, a)
 
 
+def _site_cloud(lat, long):
+    """a cloud top that depends on the event's site (as the pressure-map model does): each event must be judged with its own"""
+    return np.float32(0.5 + 6.0 * abs(np.sin(37.0 * float(lat) + 11.0 * float(long))))
+
+
 class EasCall(Stage):
     name = "EAS.__call__"
     plots = True
@@ -338,7 +345,7 @@ class EasCall(Stage):
         a = [self.buf("beta", self.beta[idx]), self.buf("alt", self.alt[idx]), self.buf("E", self.E[idx]), self.buf("lat", self.lat[idx]), self.buf("lon", self.lon[idx])]
         keep = [x.copy() for x in a]
         with dask.config.set(scheduler="synchronous"):
-            pe, c = plots.call(self.obj, *a, plot=plot, cloudf=lambda lat, long: np.float32(1.0))
+            pe, c = plots.call(self.obj, *a, plot=plot, cloudf=_site_cloud)
         return self.digest_outputs([pe, c], len(idx)), _intact(keep, a)
 
 
@@ -352,7 +359,7 @@ class EasCallThreads(EasCall):
         a = [self.buf("beta", self.beta[idx]), self.buf("alt", self.alt[idx]), self.buf("E", self.E[idx]), self.buf("lat", self.lat[idx]), self.buf("lon", self.lon[idx])]
         keep = [x.copy() for x in a]
         with dask.config.set(scheduler="threads", num_workers=4):
-            pe, c = self.obj(*a, cloudf=lambda lat, long: np.float32(1.0))
+            pe, c = self.obj(*a, cloudf=_site_cloud)
         return self.digest_outputs([pe, c], len(idx)), _intact(keep, a)
 
 
